@@ -130,14 +130,17 @@ def run(pid, tier):
         print("HARNESS FAILURE: fn_replay store")
         sys.exit(2)
     sres = {}
+    stop_at = len(progs)
     for line in o.splitlines():
         f = line.split()
-        if f and f[0] == "S" and len(f) >= 4:
+        if f and f[0] == "STOP":
+            stop_at = int(f[1])
+        elif f and f[0] == "S" and len(f) >= 4:
             sres[int(f[1])] = (f[2].split(","), f[3].split(","))
         elif f and f[0] == "C":
             sres[int(f[1])] = (["CRASH" + f[2]], [])
     store_diffs = []
-    for i, pr in enumerate(progs):
+    for i, pr in enumerate(progs[:stop_at]):
         r = sres.get(i, (["MISSING"], []))
         eo = ["ok" if x else "ERR" for x in pr["oks"]]
         if r[0] != eo or r[1] != [str(v) for v in pr["reads"]]:
@@ -175,7 +178,7 @@ def run(pid, tier):
            "samples": [{"text": v["min"], "full": v["full"], "expected": v["v"]} for v in vecs[:: max(1, len(vecs) // 6)][:6]],
            "exhaustive": tier != "quick", "tlc_states": states,
            "disagreements": len(diffs), "unexplained": len(unexplained),
-           "store_programs": len(progs), "store_disagreements": len(store_diffs),
+           "store_programs": stop_at, "store_programs_not_run_after_12_crashes": len(progs) - stop_at, "store_disagreements": len(store_diffs),
            "store_rule": "all programs of 1-2 assignments over 12 locations (scalars, array elements incl. computed, negative and too large indices; one scalar and one array declared without initial value) x 7 expressions (incl. one that reads an earlier write and one that faults); after each program all 9 locations are read back; expected = PromelaExpr!Eval over the store MC_PromelaStore!Run yields",
            "disagreement_signatures": dict(collections.Counter(signature(d) for d in diffs))}
     write_evidence(pid, tier, "exploration", cov, time.time() - t0, len(unexplained) + len(store_diffs),
